@@ -23,7 +23,7 @@ VERIF = os.path.dirname(os.path.dirname(os.path.abspath(__file__)))
 PY = sys.executable
 
 TIERS = {
-    'C16': {'quick': {'runs': 2400, 'det': 48, 'sweeps': 8},
+    'C16': {'quick': {'runs': 2400, 'det': 48, 'sweeps': 13},
             'thorough': {'runs': 60000, 'det': 512, 'sweeps': 400, 'max_seconds': 5000}},
     'C17': {'quick': {'runs': 6000, 'det': 48, 'fresh': 16},
             'thorough': {'runs': 400000, 'det': 512, 'fresh': 300, 'max_seconds': 5000}},
@@ -116,11 +116,18 @@ def _sweep(prop, tier, master, j, part):
                                                    'mix': rng.choice(['geo', 'geo', 'forward', 'inverse', 'boundary'])}) \
         if kind == 'far-cold' and rng.random() < 0.5 else c16.gen_sweep(ctx, rng, kind)
     spec['seed'] = run_seed(master, prop, tier + '-sweep', j) >> 16
-    la = ctx.oracle(spec['threads'][0][0])['steps']
-    lb = ctx.oracle(spec['threads'][1][0])['steps']
-    ks = list(range(la + 1))
+    gran = spec['gran']
+    la = ctx.oracle(spec['threads'][0][0], gran=gran)['steps']
+    lb = ctx.oracle(spec['threads'][1][0], gran=gran)['steps']
+    if gran == 'instr':
+        # instruction granularity: every bytecode boundary inside (and right after) the lines of A
+        # that touch process-global state -- the windows that lie inside one source line
+        tr = ctx.oracle(spec['threads'][0][0], want_trace=True, gran='instr')['trace'] or []
+        ks = sorted({j for j, l in enumerate(tr) if l in ctx.hot} | {j + 1 for j, l in enumerate(tr) if l in ctx.hot})
+    else:
+        ks = list(range(la + 1))
     exhaustive = True
-    cap = 2500 if tier == 'quick' else 6000
+    cap = (2000 if gran == 'line' else 1200) if tier == 'quick' else 6000
     if len(ks) > cap:
         ks = sorted(rng.sample(ks, cap))
         exhaustive = False
